@@ -4,29 +4,40 @@ import vlib, simcommon
 PROP = "C02"
 PROPS_FILE = "props/C02.v"
 COQ_FILES = ["gen/Gen.v", "proofs/SnaProofs.v", "model/Sender.v", "proofs/SenderProofs.v", "model/RPQ.v", "proofs/RPQProofs.v",
-             "model/RQ.v", "proofs/RQProofs.v", "model/TimerFsm.v", "proofs/TimerProofs.v", "props/C02.v"]
+             "model/RQ.v", "proofs/RQProofs.v", "model/TimerFsm.v", "proofs/TimerProofs.v", "proofs/RPQWordProofs.v",
+             "model/Live.v", "proofs/LiveSender.v", "proofs/LiveProofs.v", "props/C02.v"]
 TRUSTED_BASE = [
     "Coq 8.16.1 kernel; vm_compute only in Examples; no native_compute",
     "hand-written models Sender.v (T3 branch, retransmission selection, admission / probe), RPQ.v (receive bitmap), RQ.v (admission at zero "
     "credit), TimerFsm.v (rtxTimer)",
     "extraction + comparators of those components; simulator harness (overlay, synctest, go1.26.8)",
     "modelled, not verified: goroutine wake-ups (awakeWriteLoop), the wall-clock bound, RACK/PTO timers (they add retransmission sources, "
-    "never remove T3), the composition of the lemmas into one liveness theorem",
+    "never remove T3); the composed round coq/model/Live.v is glue over functions that are each tied to the code by their own "
+    "correspondence (t3_step / rtx_select / sack_step: sender step records; can_push / push / pop / gap_blocks: RPQ differential; "
+    "rq_admit: RQ window monitor) - the order of the glue (T3, retransmission, delivery, SACK, delivery) is the fault-free network itself",
 ]
 ASSUMPTIONS = [
-    "PARTIAL: liveness is proved as its ingredients (T3 never gives up; T3 marks everything outstanding; the lowest outstanding chunk is "
-    "always retransmittable; the probe path; the receiver always takes the lowest missing TSN and gap fills at zero credit; acknowledgements "
-    "never grow the outstanding byte count; cwnd >= MTU). The bounded-time clause is checked on the implementation in virtual time only.",
+    "PARTIAL: proved are the ingredients (T3 never gives up; T3 marks everything outstanding; the lowest outstanding chunk is always "
+    "retransmittable; the probe path; the receiver always takes the lowest missing TSN and gap fills at zero credit; acknowledgements never "
+    "grow the outstanding byte count; cwnd >= MTU) AND their composition: from any state satisfying the link invariant LInv every "
+    "fault-free T3 round advances the cumulative ack by >= 1 chunk (2^32 wrap included), the genuine SACK is never rejected, the invariant "
+    "is re-established, and the in-flight queue is empty after at most n rounds. Not proved: that LInv is preserved by every other event "
+    "(it is shown to hold in the all-lost state for every window and initial TSN), pending (not yet sent) data beyond the probe lemma, and "
+    "the wall-clock bound (each round <= one RTO <= RTO.max by C19), which is checked on the implementation in virtual time.",
+    "hypotheses of theorems 9-11 = hypotheses of the property: reliable chunks of at most one MTU; positive window credit when the lowest "
+    "outstanding chunk arrives (application reads, messages fit); the retransmission gate admits one MTU-sized chunk",
     "workloads whose in-progress messages fit the receive buffer (hypothesis of the property)",
 ]
 LEVEL_TEXT = ("Coq theorems for each ingredient of the no-stall argument over all states / histories of the sender, receive-queue and "
-              "timer models (see props/C02.v); the composition and the time bound (a few RTO.max) are searched for counterexamples on "
+              "timer models, and for their composition into a two-endpoint fault-free retransmission round that provably advances the "
+              "cumulative ack and drains the in-flight queue within n rounds from any state satisfying the link invariant (see props/C02.v); "
+              "the preservation of that invariant by arbitrary histories and the time bound (a few RTO.max) are searched for counterexamples on "
               "real associations in virtual time: random fault prefixes followed by a fault-free suffix must end with everything "
               "delivered and zero buffered bytes; zero-window episodes with a pausing reader; at every quiescent point outstanding "
               "data must have T3 armed and queued data must have something in flight.")
-LEVEL_NOTE = ("Partial by design: a liveness theorem over goroutine schedules is outside what the model carries. Trusted: Coq kernel, hand "
+LEVEL_NOTE = ("Partial: a liveness theorem over goroutine schedules and wall-clock time is outside what the model carries. Trusted: Coq kernel, hand "
               "models, extraction, simulator.")
-TECHNIQUE = "Coq proof of the progress lemmas + step-commuting correspondence + heal-and-drain simulation"
+TECHNIQUE = "Coq proof of the progress lemmas and of the composed fault-free round (drain within n rounds) + step-commuting correspondence + heal-and-drain simulation"
 
 
 def correspondence(ctx):
